@@ -479,6 +479,36 @@ def run_lazy(hist, env, stats):
                         viol.append(("lazy-constant-hit", {"op": op, "executions": ran, "expected": m_val, "observed": out, "now": env.now, "refreshed_at": m_refresh, "ttl": ttl}))
                         break
                 m_refresh = 0  # the dirty() came after the value was read / while it was being computed
+            elif op[0] == "race2":
+                # a refresh that started BEFORE a dirty() finishes AFTER the recomputation that the dirty() caused:
+                # what stays cached is the value computed after the invalidation
+                env.block = True
+                env.fail_next = False
+                n = len(env.execs)
+                must = (m_refresh == 0) or (ttl != 0 and m_refresh < env.now - ttl)
+                old_val = m_val
+
+                @A()
+                def second():
+                    const.dirty()
+                    env.block = False  # the recomputation does not wait for anything: it finishes first
+                    return (yield const.asynq())
+
+                @A()
+                def racer2():
+                    return (yield const.asynq(), second.asynq())
+
+                out = racer2()
+                ran = len(env.execs) - n
+                stats["stale_refresh_finishing_after_a_newer_one"] = stats.get("stale_refresh_finishing_after_a_newer_one", 0) + (1 if must else 0)
+                stats["misses"] += 1
+                want_runs = 2 if must else 1
+                toks = [tokval("const", e[2]) for e in env.execs[n:]]
+                if ran != want_runs or out[1] != toks[-1] or out[0] != (toks[0] if must else old_val):
+                    viol.append(("lazy-constant-race", {"op": op, "executions": ran, "expected_executions": want_runs, "observed": repr(out)[:120]}))
+                    break
+                m_val = toks[-1]
+                m_refresh = env.now
             else:
                 env.block = op[1]
                 env.fail_next = op[2]
@@ -536,6 +566,8 @@ def make_history(rnd, kind):
                 ops.append(["dirty"])
             elif r < 0.52:
                 ops.append(["race"])
+            elif r < 0.58:
+                ops.append(["race2"])
             else:
                 ops.append(["call", rnd.random() < 0.3, rnd.random() < 0.12, rnd.random() < 0.5])
         return {"ttl": ttl, "ops": ops}
@@ -611,7 +643,7 @@ def run_unit(unit, progress):
 
 def reach(c, tier):
     out = []
-    for k in ["histories_" + k for k in KINDS] + ["hits", "misses", "evictions", "raises", "spelling_pairs", "gc_checks", "parallel", "recomputes", "gathers", "gathers_with_overlapping_misses_of_one_key", "dirty_while_refresh_in_flight"]:
+    for k in ["histories_" + k for k in KINDS] + ["hits", "misses", "evictions", "raises", "spelling_pairs", "gc_checks", "parallel", "recomputes", "gathers", "gathers_with_overlapping_misses_of_one_key", "dirty_while_refresh_in_flight", "stale_refresh_finishing_after_a_newer_one"]:
         if not c.get(k):
             out.append("%s is zero" % k)
     return out
